@@ -356,15 +356,21 @@ def kill_points(calls, canon: Canon):
 
 # The source of the cached function contains 2-, 3- and 4-byte UTF-8 characters (docstring, identifier, string constant):
 # func_code.py is written in place, so a kill can tear it inside a character.
+# The function is NOT pure: its value is tagged with the epoch the harness controls (`EPOCH`, set by the workload process
+# from the epoch file named in its spec; 0 = the value has the historical 3-element form).
 MOD_TEMPLATE = '''CALLS = []
+EPOCH = 0
 
 
 def f(x):
     """Doubles x (2π, ☃, 😀)."""
     naïve = "☃😀π"
     CALLS.append(x)
-    return [x, x * 2, "{version}"] if naïve else None
+    return [x, x * 2, "{version}"] + ([EPOCH] if EPOCH else []) if naïve else None
 '''
+
+EPOCH_SHIFT = 1.0e6      # seconds by which `time.time()` is shifted per epoch in a workload process (no sleeps)
+EXPIRY_DELTA = 5.0e5     # `expires_after(seconds=EXPIRY_DELTA)`: an entry of an earlier epoch has expired, one of this epoch not
 
 
 def write_module(moddir, version):
@@ -373,8 +379,15 @@ def write_module(moddir, version):
         fh.write(MOD_TEMPLATE.format(version=version))
 
 
-def expected(version, x):
-    return [x, x * 2, version]
+def expected(version, x, epoch=0):
+    return [x, x * 2, version] + ([epoch] if epoch else [])
+
+
+def value_epoch(v):
+    """Epoch tag of a value of `f` (None when it is not a value of `f`)."""
+    if isinstance(v, list) and len(v) in (3, 4) and v[1] == 2 * v[0]:
+        return v[3] if len(v) == 4 else 0
+    return None
 
 
 def _worker(spec):
@@ -387,6 +400,17 @@ def _worker(spec):
     from joblib import Memory, expires_after
     import wl_mod
 
+    # the epoch this process lives in (read from the file the harness wrote): the value of `f` and `time.time()` follow it
+    epoch = 0
+    if spec.get("epoch_file"):
+        epoch = int(open(spec["epoch_file"]).read().strip() or 0)
+    wl_mod.EPOCH = epoch
+    if epoch:
+        import time as _time
+
+        _real_time = _time.time
+        _time.time = lambda: _real_time() + epoch * EPOCH_SHIFT
+
     if not os.path.realpath(joblib.__file__).startswith(os.path.realpath(spec["repo"]) + os.sep):
         print(json.dumps(dict(infra="joblib imported from " + joblib.__file__)))
         return 3
@@ -398,6 +422,17 @@ def _worker(spec):
         cb = expires_after(days=1)
     elif spec.get("callback") == "now":
         cb = expires_after(seconds=-1)
+    elif spec.get("callback") == "since":
+        # "valid iff stored at or after the threshold instant" — `expires_after` seen from a fixed instant
+        thr = float(spec["threshold"])
+
+        def cb(metadata, _thr=thr):
+            return "time" in metadata and metadata["time"] >= _thr
+    elif spec.get("callback") == "expafter":
+        cb = expires_after(seconds=EXPIRY_DELTA)  # the real helper; entries of an earlier epoch are EPOCH_SHIFT older
+    elif spec.get("callback") is not None:
+        print(json.dumps(dict(infra="unknown callback " + str(spec.get("callback")))))
+        return 3
     try:
         mem = Memory(spec["cache"], verbose=0, compress=bool(spec.get("compress")))
     except BaseException as e:  # noqa: BLE001
